@@ -312,7 +312,7 @@ func genFindCase(r *Rng, ver string, kind string) (toks, bool) {
 		full := append(append([]int{}, raw...), rep...)
 		if len(full) > 0 {
 			i := r.Intn(len(full))
-			j := i + r.Range(1, 6)
+			j := i + r.Pick([]int{1, 2, 3, 4, 5, 6, 8, 9, 12, 17})
 			if j > len(full) {
 				j = len(full)
 			}
